@@ -151,6 +151,8 @@ def _mk_call(sim, stacks, ev, res):
         elif op == 'ca_stop':
             ca = st.cas[ev['ca']]
             st.call(('ca_stop', sim.now, ev['ca']), lambda: ca.stop())
+        elif op == 'probe':
+            sim.trace.append((sim.now, -1, 'probe', tuple(0 if x.tables_empty() else 1 for x in stacks), tuple(x.job_state() for x in stacks)))
         elif op == 'off_bus':
             st.on_bus = False
         elif op == 'on_bus':
